@@ -740,15 +740,17 @@ func main() {
 		qd = append(qd, fmt.Sprintf("  (%s, %s, [%s])", leanStr(e.fn), leanStr(e.path), strings.Join(cs, ", ")))
 	}
 	fmt.Fprintf(&b, "/-- the readers' dispatch tables: (function, branch on the node kind, model edits written directly in it, in source order) -/\ndef readerEdits : List (String × String × List String) := [\n%s]\n\n", strings.Join(qd, ",\n"))
-	qs := []string{}
-	for _, f := range elementSkeleton(fset, *repo) {
-		ts := []string{}
-		for _, t := range f.toks {
-			ts = append(ts, leanStr(t))
+	for _, grp := range skeletonGroups {
+		qs := []string{}
+		for _, f := range skeletonOf(fset, *repo, grp.files, grp.only, grp.except) {
+			ts := []string{}
+			for _, t := range f.toks {
+				ts = append(ts, leanStr(t))
+			}
+			qs = append(qs, fmt.Sprintf("  (%s, [%s])", leanStr(f.name), strings.Join(ts, ", ")))
 		}
-		qs = append(qs, fmt.Sprintf("  (%s, [%s])", leanStr(f.name), strings.Join(ts, ", ")))
+		fmt.Fprintf(&b, "/-- control skeleton of the functions of %s (function, control statements with conditions and selector calls, in source order) -/\ndef %s : List (String × List String) := [\n%s]\n\n", grp.doc, grp.name, strings.Join(qs, ",\n"))
 	}
-	fmt.Fprintf(&b, "/-- control skeleton of the functions of package element (function, control statements with conditions and selector calls, in source order) -/\ndef elementSkeleton : List (String × List String) := [\n%s]\n\n", strings.Join(qs, ",\n"))
 	b.WriteString("end Sqlize.Facts\n")
 
 	if *out == "" {
